@@ -838,7 +838,7 @@ bool c09_uci_sequence(Tape& t, Report& rep)
     for (int i = 0; i < n; ++i)
     {
         ref::Pos root = root_with_moves(t, rep, 40).cur;
-        if (ref::legal_moves(root).size() < 2) continue;  // a single reply gets a fixed 500 ms budget by design
+        if (ref::legal_moves(root).empty()) continue;
         int kind = t.weighted({3, 3, 2, 2, 1});
         std::string go = "go";
         uint64_t budget_ms = 0;  // 0 = no time budget to check
@@ -866,9 +866,8 @@ bool c09_uci_sequence(Tape& t, Report& rep)
         }
         else if (kind == 3)
         {
-            // depth together with a time limit: the depth limit must still hold.  (The engine lets the depth limit take
-            // precedence and ignores the time in this combination; the property only requires that iterations stay <= d
-            // and that the search terminates, so the time budget is NOT checked here.)
+            // depth together with a time limit: the depth limit must still hold (that both limits bind is C20's concern and
+            // is checked by its search-level mode; C09 only requires iterations <= d and termination)
             depthLimit = 1 + int(t.choose(3));
             if (t.flag())
                 go += " depth " + std::to_string(depthLimit) + " movetime " + std::to_string(MT[t.choose(4)]);
@@ -1066,6 +1065,71 @@ bool prop_C09(Tape& t, Report& rep)
 }
 
 }  // namespace
+
+// C20 seen where it matters: what the SEARCH does with the clock.  `go wtime W btime B [winc/binc] [movestogo] [depth d]`
+// on the in-process Uci::loop under the virtual clock; the thinking time is the number of node visits until `bestmove`
+// divided by the clock rate, and it must stay within 70% of the mover's remaining time (plus the polling granularity of
+// the engine's limit check: first poll after 4,096 visits, then every 40,960, plus unwinding).  Scenarios the allocation
+// function alone does not show: a root with a single legal reply, a remaining time of 0, a depth limit given together with
+// the clock.  (Called from prop_C20 in exh_tables.cpp.)
+bool c20_uci_budget(Tape& t, Report& rep)
+{
+    br::init_engine();
+    rigns::Rig& R = rigns::rig();
+    UciSeq& U = useq();
+    verif::virtual_clock = true;
+    verif::callback = &useq_cb;
+    U.rate = 200;
+    int scenario = t.weighted({3, 2, 2, 2});
+    ref::Pos root;
+    bool haveRoot = false;
+    for (int attempt = 0; attempt < 40 && !haveRoot; ++attempt)
+    {
+        ref::Pos p = scenario == 0 ? (t.flag() ? gen::theme_checks(t, &rep) : gen::theme_ep_evasion(t, &rep)) : root_with_moves(t, rep, 40).cur;
+        size_t n = ref::legal_moves(p).size();
+        if (scenario == 0 ? n == 1 : n >= 8)
+        {
+            root = p;
+            haveRoot = true;
+        }
+    }
+    if (!haveRoot) return true;
+    static const int TIMES[] = {10, 50, 100, 300, 700, 1000};
+    int mine = scenario == 1 ? 0 : TIMES[t.choose(6)], theirs = t.flag() ? 60000 : TIMES[t.choose(6)];
+    int inc = t.chance(1, 3) ? 100 : 0;
+    std::string go = std::string("go wtime ") + std::to_string(root.wtm ? mine : theirs) + " btime " + std::to_string(root.wtm ? theirs : mine) + " winc " + std::to_string(inc) +
+                     " binc " + std::to_string(inc);
+    if (t.chance(1, 3)) go += " movestogo " + std::to_string(1 + t.choose(40));
+    if (scenario == 2) go = "go depth " + std::to_string(20 + t.choose(20)) + go.substr(2);
+    const uint64_t allowed = uint64_t(mine) * 7 / 10 * U.rate.load() + 4096 + 40960 + 6000;
+    U.cap = allowed * 3 + 100000;
+    R.send("ucinewgame");
+    R.send("setoption name Polyglot Book value /nonexistent-verif-book");
+    size_t mark = R.out.size();
+    R.send("position fen " + ref::to_fen(root));
+    U.visits = 0;
+    R.send(go);
+    long bm = R.out.wait_line(mark, rigns::is_bestmove, 300000);
+    rep.eval();
+    static const char* SC[] = {"single_legal_reply", "remaining_time_zero", "depth_limit_together_with_the_clock", "ordinary"};
+    rep.cls(std::string("c20:uci_budget_") + SC[scenario]);
+    rep.decoded = "position fen " + ref::to_fen(root) + " ; " + go + " (virtual clock " + std::to_string(U.rate.load()) + " visits/ms)";
+    uint64_t v = U.visits.load();
+    if (bm < 0)
+    {
+        R.send("stop");
+        R.out.wait_line(mark, rigns::is_bestmove, 300000);
+    }
+    verif::callback = nullptr;
+    verif::virtual_clock = false;
+    rep.nontriv(fnv1a(rep.decoded));
+    rep.sample(std::string("c20:uci_budget_") + SC[scenario], rep.decoded + " -> " + std::to_string(v / U.rate.load()) + " ms", 2);
+    if (v > allowed)
+        return rep.fail(std::string("time:search_exceeds_70_percent:") + SC[scenario],
+                        "the search thought for " + std::to_string(v / U.rate.load()) + " virtual ms (" + std::to_string(v) + " node visits) with " + std::to_string(mine) +
+                            " ms left on the mover's clock; 70% of that is " + std::to_string(mine * 7 / 10) + " ms (allowed incl. polling granularity: " + std::to_string(allowed) + " visits)\n " + rep.decoded);
+    return true;
+}
 
 REGISTER_PROP("C05", prop_C05, nullptr);
 REGISTER_PROP("C08", prop_C08, nullptr);
